@@ -1,3 +1,4 @@
 import CpSpec.Codes
 import CpSpec.Wire
 import CpSpec.Mpint
+import CpSpec.Tls
